@@ -667,6 +667,11 @@ func (r *FileRestorer) applyDecorations(node ast.Node, name string, decorations 
 
 		// for newline decorations and also line-comments, add a newline
 		if isLineComment || isNewline {
+			if int(r.cursor) == r.base {
+				// A newline at the very start of the file: line 1 already starts at offset 0, so
+				// step over one byte to keep the line table strictly increasing.
+				r.cursor++
+			}
 			lineOffset := int(r.cursor) - r.base // remember lines are relative to the file base
 			r.lines = append(r.lines, lineOffset)
 			r.cursor++
